@@ -1379,6 +1379,8 @@ func runC04(c *core.Ctx) core.Meta {
 	checkVOP3PModifiers(c, t)
 	checkFLATOperands(c, t)
 	checkSMEMOperands(c, t)
+	checkSOP2Operands(c, t)
+	checkDSDestinationPrinted(c, t)
 	checkModifierFlags(c)
 	checkOperandsFresh(c)
 	checkOpcodeOperandsPrinted(c)
